@@ -50,7 +50,8 @@ func (u *URL) Copy() *URL {
 // MarshalYAML implements the yaml.Marshaler interface for URL.
 func (u URL) MarshalYAML() (any, error) {
 	if u.URL != nil {
-		return u.String(), nil
+		// Do not print a password embedded in the URL.
+		return u.Redacted(), nil
 	}
 	return nil, nil
 }
@@ -72,7 +73,7 @@ func (u *URL) UnmarshalYAML(unmarshal func(any) error) error {
 // MarshalJSON implements the json.Marshaler interface for URL.
 func (u URL) MarshalJSON() ([]byte, error) {
 	if u.URL != nil {
-		return json.Marshal(u.String())
+		return json.Marshal(u.Redacted())
 	}
 	return []byte("null"), nil
 }
